@@ -3,6 +3,8 @@
 // the simulated clock advances across several rotation intervals (clock reads jitter per call).
 #include "worlds/net_common.hpp"
 
+#include <algorithm>
+
 using namespace wl;
 
 namespace {
@@ -54,11 +56,12 @@ void exec_c39(const Plan& p, Ctx& ctx) {
     B.start("nodeB", sk::ip(10, 0, 1, 2), kB, cb, tb, p.knob("phase_b_ms", 0) * kMs);
     if (!link_nodes(A, B)) { ctx.violate("C39.setup_failed", "two honest nodes could not establish a session"); A.stop(); B.stop(); return; }
     const std::int64_t established = sk::now_ns();
-    const std::int64_t G = 2 * std::max(ta, tb) + p.knob("lat_max_us", 500) * 1000 * 4 + kSec;
-    std::int64_t diverged_since = -1;   // first instant at which both ends were seen connected with different keys
-    std::int64_t paused_until[2] = {0, 0};
-    bool any_pause = false;
-    for (auto& op : p.ops) if (op.k == "pause_ticks") any_pause = true;
+    // sampling step and tolerated lag: the end that reaches a rotation boundary later switches at its next tick,
+    // so two honest ends hold the same key within one tick period (+ network latency, + the instants at which the
+    // two ends recorded the handshake, + the sampling step of this observer) of each other.
+    const std::int64_t S = std::clamp<std::int64_t>(std::min(ta, tb) / 2, 100 * kMs, 500 * kMs);
+    const std::int64_t G = std::max(ta, tb) + p.knob("lat_max_us", 500) * 1000 * 4 + kSec + 2 * S;
+    std::vector<std::pair<std::int64_t, std::int64_t>> pauses;  // [start, end] of tick starvation of either node
 
     struct View { std::optional<std::array<std::uint8_t, 32>> key, transport_key; bool connected = false; std::uint64_t counter = 0; };
     auto view = [&](NodeProc& n, const en::PeerId& other) {
@@ -74,54 +77,51 @@ void exec_c39(const Plan& p, Ctx& ctx) {
         });
         return v;
     };
+    struct Sample { std::int64_t t; View a, b; };
+    std::vector<Sample> samples;
+    auto near_pause = [&](std::int64_t t) {
+        for (auto& [ps, pe] : pauses) if (t >= ps - G && t <= pe + 2 * G) return true;
+        return false;
+    };
 
-    auto observe = [&](const char* when) {
-        const View a = view(A, kB), b = view(B, kA);
-        const std::int64_t now = sk::now_ns();
+    auto observe = [&](const char* when) -> const Sample& {
+        Sample smp{sk::now_ns(), view(A, kB), view(B, kA)};
+        const View& a = smp.a; const View& b = smp.b;
+        const std::int64_t now = smp.t;
         const bool both_connected = a.connected && b.connected;
         const bool differ = a.key && b.key && *a.key != *b.key;
-        const bool ticking = now > paused_until[0] + G && now > paused_until[1] + G;
         // (1) internal consistency on each node: the transport encrypts with the key the key manager holds
-        if (a.connected && a.key && a.transport_key && *a.key != *a.transport_key && ticking)
+        if (a.connected && a.key && a.transport_key && *a.key != *a.transport_key)
             ctx.violate("C39.transport_key_stale", fmt("node A: the session encrypts with a key that is not the current session key (%s)", when));
-        if (b.connected && b.key && b.transport_key && *b.key != *b.transport_key && ticking)
+        if (b.connected && b.key && b.transport_key && *b.key != *b.transport_key)
             ctx.violate("C39.transport_key_stale", fmt("node B: the session encrypts with a key that is not the current session key (%s)", when));
         // (2) before any rotation can have happened the keys must agree
         if (both_connected && differ && now < established + rotation * kSec - kSec)
             ctx.violate("C39.keys_differ_before_rotation", fmt("keys differ %.3f s after the handshake although the rotation interval is %lld s (%s)", (now - established) / 1e9, (long long)rotation, when));
-        // (3) the property: not connected-with-different-keys for longer than G
-        if (both_connected && differ) {
-            if (diverged_since < 0) diverged_since = now;
-            if (now - diverged_since > G && ticking) {
-                if (!any_pause && std::min(a.counter, b.counter) == 0 && std::max(a.counter, b.counter) >= 2)
-                    ctx.violate("C39.one_side_never_rotates", fmt("both ends connected for %.1f s with different keys; A rotated %llu times, B %llu times although both tick regularly (%s)", (now - diverged_since) / 1e9, (unsigned long long)a.counter, (unsigned long long)b.counter, when));
-                else
-                    ctx.violate("C39.keys_differ_after_rotation", fmt("both ends report the session connected for %.1f s (> %.1f s) while holding different keys after %llu rotation(s) (%s)", (now - diverged_since) / 1e9, G / 1e9, (unsigned long long)a.counter, when));
-            }
-        } else {
-            diverged_since = -1;
-        }
         if (a.counter > 0 || b.counter > 0) ctx.boundary("rotation_happened");
+        if (both_connected && differ) ctx.probe("sampled_inside_switch_window");
         ctx.state(a.counter * 64 + b.counter * 4 + (both_connected ? 2 : 0) + (differ ? 1 : 0));
+        samples.push_back(smp);
+        return samples.back();
+    };
+    auto advance = [&](std::int64_t total, const char* when) {
+        for (std::int64_t done = 0; done < total;) { const std::int64_t d = std::min(S, total - done); sk::sleep_ns(d); done += d; observe(when); }
     };
 
     for (auto& op : p.ops) {
         ++ctx.ops_done;
         if (op.k == "adv") {
-            // observe a few times across the advance so that a divergence has a start and a duration
-            const std::int64_t total = op.at(0) * kMs;
-            const int slices = 4;
-            for (int i = 0; i < slices; ++i) { sk::sleep_ns(total / slices); observe("during advance"); }
+            advance(op.at(0) * kMs, "during advance");
         } else if (op.k == "probe") {
             // end-to-end: a negative acknowledgement sent now must cost the sender reputation at the receiver
             NodeProc& from = op.at(0) == 0 ? A : B;
             NodeProc& to = op.at(0) == 0 ? B : A;
             const en::PeerId from_id = op.at(0) == 0 ? kA : kB, to_id = op.at(0) == 0 ? kB : kA;
             int before = 0, after = 0;
-            bool sent = false, connected_from = false, connected_to = false;
-            to.run([&](en::Node& n) { before = n.reputation_score(from_id); connected_to = n.sessions_.is_connected(from_id); });
+            bool sent = false;
+            const Sample s0 = observe("before probe");
+            to.run([&](en::Node& n) { before = n.reputation_score(from_id); });
             from.run([&](en::Node& n) {
-                connected_from = n.sessions_.is_connected(to_id);
                 const auto key = n.session_key(to_id);
                 if (!key) return;
                 en::protocol::Message m{};
@@ -132,22 +132,60 @@ void exec_c39(const Plan& p, Ctx& ctx) {
             });
             sk::sleep_ns(200 * kMs + p.knob("lat_max_us", 500) * 2000);
             to.run([&](en::Node& n) { after = n.reputation_score(from_id); });
+            const Sample s1 = observe("after probe");
             ctx.probe("probes");
-            if (sent && connected_from && connected_to && after == before && before > -98) ctx.probe("probe_lost_on_connected_session");
-            observe("after probe");
+            // both ends held one and the same key from before the send until after the delivery window, on a session both
+            // report connected: the message must have been read and authenticated
+            const bool steady = s0.a.connected && s0.b.connected && s1.a.connected && s1.b.connected && s0.a.key && s0.b.key && s1.a.key && s1.b.key
+                                && *s0.a.key == *s0.b.key && *s1.a.key == *s1.b.key && *s0.a.key == *s1.a.key;
+            if (steady) ctx.probe("probes_with_equal_keys");
+            if (sent && steady && after == before && before > -90 && !near_pause(s1.t))
+                ctx.violate("C39.message_lost_with_equal_keys", fmt("both ends hold the same session key and report the session connected, yet a signed message from node %c sent at %.3f s was not accepted by the other end", op.at(0) == 0 ? 'A' : 'B', s0.t / 1e9));
+            if (sent && !steady && after == before) ctx.probe("probe_lost_inside_switch_window");
         } else if (op.k == "pause_ticks") {
             NodeProc& n = op.at(0) == 0 ? A : B;
+            const std::int64_t ps = sk::now_ns();
             n.actor.tick_enabled = false;
-            sk::sleep_ns(op.at(1) * kMs);
+            advance(op.at(1) * kMs, "during tick starvation");
             n.actor.tick_enabled = true;
             n.actor.next_tick = sk::now_ns();
-            paused_until[op.at(0)] = sk::now_ns();
+            pauses.push_back({ps, sk::now_ns()});
             ctx.fault("tick_starvation");
-            observe("after tick starvation");
         }
     }
     // settle: several more rotation intervals with both ticking
-    for (int i = 0; i < 6; ++i) { sk::sleep_ns((rotation * kSec) / 2 + G); observe("settling"); }
+    advance(3 * rotation * kSec + 3 * G, "settling");
+
+    // (3) the property over the sampled history: whatever key one end holds at an instant at which both ends report the
+    // session connected, the other end holds the same key at some instant no further than G away (unless the session
+    // was down, or a node was being starved of ticks, around that instant).
+    const std::int64_t t_last = samples.empty() ? 0 : samples.back().t;
+    auto judge = [&](bool a_side) {
+        for (std::size_t i = 0; i < samples.size(); ++i) {
+            const Sample& si = samples[i];
+            const View& mine = a_side ? si.a : si.b;
+            if (!(si.a.connected && si.b.connected) || !mine.key) continue;
+            if (si.t + G > t_last || near_pause(si.t)) continue;
+            bool matched = false, window_down = false;
+            for (std::size_t j = 0; j < samples.size() && !matched; ++j) {
+                const Sample& sj = samples[j];
+                if (sj.t < si.t - G || sj.t > si.t + G) continue;
+                if (!(sj.a.connected && sj.b.connected)) window_down = true;
+                const View& other = a_side ? sj.b : sj.a;
+                if (other.key && *other.key == *mine.key) matched = true;
+            }
+            if (matched || window_down) continue;
+            const View& other = a_side ? si.b : si.a;
+            const char me = a_side ? 'A' : 'B', them = a_side ? 'B' : 'A';
+            if (pauses.empty() && std::min(si.a.counter, si.b.counter) == 0 && std::max(si.a.counter, si.b.counter) >= 2)
+                ctx.violate("C39.one_side_never_rotates", fmt("at %.3f s both ends report the session connected; node A has rotated %llu times, node B %llu times although both tick regularly, and node %c never holds node %c's key within %.1f s", si.t / 1e9, (unsigned long long)si.a.counter, (unsigned long long)si.b.counter, them, me, G / 1e9));
+            else
+                ctx.violate("C39.keys_differ_after_rotation", fmt("at %.3f s both ends report the session connected and node %c holds a session key (rotation #%llu) that node %c (rotation #%llu) does not hold at any instant within %.1f s before or after", si.t / 1e9, me, (unsigned long long)mine.counter, them, (unsigned long long)other.counter, G / 1e9));
+            return;
+        }
+    };
+    judge(true);
+    judge(false);
     A.stop();
     B.stop();
 }
@@ -155,10 +193,10 @@ void exec_c39(const Plan& p, Ctx& ctx) {
 Scenario make_c39() {
     Scenario s;
     s.id = "C39"; s.world = "W2"; s.level = "exploration";
-    s.technique = "deterministic simulation: two real Nodes with an established session tick at seeded, different periods and phases (with per-call clock jitter and tick starvation) across several rotation intervals; keys, rotation counters, transport keys and connectivity of both ends are sampled and the duration of any connected-but-different-keys state is measured";
+    s.technique = "deterministic simulation: two real Nodes with an established session tick at seeded, different periods and phases (with per-call clock jitter and tick starvation) across several rotation intervals; keys, transport keys and connectivity of both ends are sampled densely (every half tick period) and judged as a history: every key held by one end must be held by the other within a bounded lag; signed probes sent while both ends hold the same key must be accepted end to end";
     s.real_components = {"Node (tick, rotate_session_keys, send_secure, handle_transport_message)", "KeyManager (rotate_if_needed, derive_key)", "SessionManager"};
     s.stub_components = {"OS: threads -> fibers, sockets -> simulated TCP, clock (with seeded per-read jitter), entropy"};
-    s.assumptions = {"a divergence shorter than G = 2 x the larger tick period + 4 x max latency + 1 s is tolerated (tear-down and re-handshake within G would also be accepted)"};
+    s.assumptions = {"two honest ends may hold different keys only while one of them has passed a rotation boundary and the other has not ticked yet: every key one end holds (while both report the session connected) must be held by the other end at some sampled instant within G = the larger tick period + 4 x max latency + 1 s + 2 sampling steps; tear-down and re-handshake is also accepted", "samples around a tick starvation of either node are not judged"};
     s.rule = "plan = rotation interval {5,7,20,60 s}, two tick periods and phases, latency, jitter, preemption + 2..8 ops (advance 1..61 s, end-to-end probe, tick starvation of one side); non-trivial = at least one rotation happened or a side was starved of ticks; distinct = plan hash";
     s.gen = gen_c39; s.exec = exec_c39; s.kernel_knobs = knobs_c39;
     s.quick_runs = 1500; s.thorough_runs = 60000; s.quick_secs = 45; s.thorough_secs = 900;
